@@ -178,7 +178,7 @@ impl<'a> MessageParser<'a> {
                         }
                     }
                 }
-                MessageParserState::Error => panic!("invalid parser state"),
+                MessageParserState::Error => bail!("invalid parser state"),
             }
         }
     }
